@@ -126,18 +126,28 @@ struct Opt {
 	Opt() : mount(false), id(0), child(0), api(0) {}
 };
 struct KeyE { std::string key; int ar; std::string t; int hid; int kw; KeyE() : ar(0), hid(0), kw(0) {} };
+// wire: how the node is wired into its dispatcher parent
+//   0 attach(app,name,url,regex,part)                      application + mapper + dispatcher hierarchy
+//   1 attach(app,regex,part)                               no mapper link: the node tops its own mapper hierarchy
+//   2 add(app,regex,part) + mapper().mount(name,url,app)   the same three links made by separate calls
+//   3 mapper().mount(name,url,app) + dispatcher().mount(regex,app,part)   no add(): no application-hierarchy link
+//   4 dispatcher().mount(regex,app,part) only              neither mapper nor application link
+//   5 add(app,regex,part) only                             dispatcher-only add (an unnamed front above a named hierarchy)
 struct Node {
-	int parent; std::string mname,mt; std::vector<Opt> opts; std::vector<KeyE> keys;
-	Node() : parent(0) {}
+	int parent,mparent,wire; std::string mname,mt,mroot; std::vector<Opt> opts; std::vector<KeyE> keys;
+	Node() : parent(0), mparent(0), wire(1) {}
 };
 typedef std::vector<Node> Cfg;   // node ids are 1-based: cfg[i-1]
 
-static std::string jcfg(Cfg const &c,std::string const &prefix)
+static std::string helper_val(int top) { return "en"+itos(top); }
+static std::string jcfg(Cfg const &c,std::string const &prefix,bool with_helpers=false)
 {
 	std::string r="{\"e\":\"Cfg\",\"root\":1,\"prefix\":"+jbytes(prefix)+",\"helpers\":[{\"n\":\"lang\",\"v\":"+jbytes("en")+"}],\"nodes\":[";
 	for(size_t n=0;n<c.size();n++) {
 		if(n) r+=",";
-		r+="{\"parent\":"+itos(c[n].parent)+",\"mname\":"+jstr(c[n].mname)+",\"mt\":"+jtmpl(c[n].mt)+",\"opts\":[";
+		r+="{\"parent\":"+itos(c[n].parent)+",\"mparent\":"+itos(c[n].mparent)+",\"wire\":"+itos(c[n].wire)+",\"mroot\":"+jbytes(c[n].mparent?std::string():c[n].mroot)
+		  +",\"helpers\":["+((with_helpers && !c[n].mparent)?"{\"n\":\"lang\",\"v\":"+jbytes(helper_val(n+1))+"}":std::string())+"]"
+		  +",\"mname\":"+jstr(c[n].mname)+",\"mt\":"+jtmpl(c[n].mt)+",\"opts\":[";
 		for(size_t i=0;i<c[n].opts.size();i++) {
 			Opt const &o=c[n].opts[i];
 			if(i) r+=",";
@@ -194,6 +204,9 @@ struct RF {           // assign_generic handler
 	}
 };
 
+class node_app;
+static std::vector<node_app *> g_unmanaged;     // children not owned by attach(): deleted by the driver
+static std::vector<node_app *> g_approots;      // children without add(): roots of their own application hierarchy
 class node_app : public cppcms::application {
 public:
 	node_app(cppcms::service &s,Cfg const &c,int nid) : cppcms::application(s)
@@ -204,8 +217,14 @@ public:
 			if(o.mount) {
 				node_app *ch=new node_app(s,c,o.child);
 				Node const &cn=c[o.child-1];
-				if(!cn.mname.empty()) attach(ch,cn.mname,cn.mt,o.re,o.sel[0]);
-				else attach(ch,o.re,o.sel[0]);
+				switch(cn.wire) {
+				case 0: attach(ch,cn.mname,cn.mt,o.re,o.sel[0]); break;
+				case 1: attach(ch,o.re,o.sel[0]); break;
+				case 2: add(*ch,o.re,o.sel[0]); mapper().mount(cn.mname,cn.mt,*ch); g_unmanaged.push_back(ch); break;
+				case 3: mapper().mount(cn.mname,cn.mt,*ch); dispatcher().mount(o.re,*ch,o.sel[0]); g_unmanaged.push_back(ch); g_approots.push_back(ch); break;
+				case 4: dispatcher().mount(o.re,*ch,o.sel[0]); g_unmanaged.push_back(ch); g_approots.push_back(ch); break;
+				default: add(*ch,o.re,o.sel[0]); g_unmanaged.push_back(ch); break;
+				}
 				continue;
 			}
 			if(o.meth.kind || o.api==1) {
@@ -281,12 +300,15 @@ static DRes dispatch(node_app &root,std::string const &method,std::string const 
 	booster::shared_ptr<null_conn> conn(new null_conn(*g_srv,env));
 	booster::shared_ptr<cppcms::http::context> ctx(new cppcms::http::context(conn));
 	root.assign_context(ctx);
+	// applications mounted without add() are the roots of their own application hierarchy: they get the context by hand
+	for(size_t i=0;i<g_approots.size();i++) ((cppcms::application *)g_approots[i])->assign_context(ctx);
 	root.response().io_mode(cppcms::http::response::normal);
 	g_hits.clear();
 	try { root.main(path); }
 	catch(std::exception const &e) { Hit h; h.app=-1; h.id=-1; h.args.push_back(e.what()); g_hits.push_back(h); }
 	try { ctx->response().finalize(); } catch(...) {}
 	R.st=conn->status_;
+	for(size_t i=0;i<g_approots.size();i++) ((cppcms::application *)g_approots[i])->release_context();
 	root.release_context();
 	R.hits=g_hits;
 	return R;
@@ -510,7 +532,7 @@ static Meth rnd_meth(vt::rng &rnd)
 	}
 	return m;
 }
-static int build_rnd(Cfg &c,int parent,int depth,vt::rng &rnd,int &hid)
+static int build_rnd(Cfg &c,int parent,int depth,vt::rng &rnd,int &hid,std::string const &dpath=std::string())
 {
 	c.push_back(Node()); int me=c.size();
 	c[me-1].parent=parent;
@@ -521,11 +543,14 @@ static int build_rnd(Cfg &c,int parent,int depth,vt::rng &rnd,int &hid)
 		Opt o; unsigned rxv=rnd(4);
 		if(kinds[i]) {
 			o.mount=true; o.pat=rnd_pat(rnd,true); o.re=regex_text(o.pat,rxv); o.sel.push_back(ngroups(o.pat));
-			int ch=build_rnd(c,me,depth+1,rnd,hid); o.child=ch;
-			if(rnd(4)) {      // named: mapper mount; template = sample of the pattern with {1} for the rest
-				std::string t; for(size_t k=0;k+1<o.pat.size();k++) t+=sample_el(o.pat[k],rnd,false);
-				c[ch-1].mname="c"+itos(++cn); c[ch-1].mt=t+"{1}";
-			}
+			// the literal path under which the child is reached: a sample of the mount pattern without the rest
+			std::string t; for(size_t k=0;k+1<o.pat.size();k++) t+=sample_el(o.pat[k],rnd,false);
+			int ch=build_rnd(c,me,depth+1,rnd,hid,dpath+t); o.child=ch;
+			static const int wires[20]={0,0,0,0,0,0,0,1,1,2,2,2,3,3,3,3,4,5,5,5};
+			int w=wires[rnd(20)];
+			c[ch-1].wire=w;
+			if(w==0||w==2||w==3) { c[ch-1].mname="c"+itos(++cn); c[ch-1].mt=t+"{1}"; c[ch-1].mparent=me; }
+			else c[ch-1].mroot=dpath+t;      // top of its own mapper hierarchy: root string = the path it is reached by
 		}
 		else {
 			o.id=++hid; o.pat=rnd_pat(rnd,false);
@@ -584,11 +609,17 @@ static void mode_rand(long configs,long reqs,vt::rng &rnd)
 		Cfg c; int hid=0; build_rnd(c,0,1,rnd,hid);
 		std::string prefix = rnd(3)==0 ? "/script.cgi" : "";
 		tr.line("{\"e\":\"Reset\"}");
-		tr.line(jcfg(c,prefix));
-		node_app::by_id().clear();
+		for(size_t i=0;i<c.size();i++) if(!c[i].mparent) c[i].mroot=prefix+c[i].mroot;
+		tr.line(jcfg(c,prefix,true));
+		node_app::by_id().clear(); g_unmanaged.clear(); g_approots.clear();
 		node_app root(*g_srv,c,1); n_cfg++;
-		if(!prefix.empty()) root.mapper().root(prefix);
-		root.mapper().set_value("lang","en");
+		struct cleanup { ~cleanup() { for(size_t i=0;i<g_unmanaged.size();i++) delete g_unmanaged[i]; g_unmanaged.clear(); g_approots.clear(); } } cleanup_guard;
+		// every top of a mapper hierarchy: root string and the default of the {lang} helper
+		for(size_t i=0;i<c.size();i++) if(!c[i].mparent) {
+			cppcms::url_mapper &mp=node_app::by_id()[i+1]->mapper();
+			if(!c[i].mroot.empty()) mp.root(c[i].mroot);
+			mp.set_value("lang",helper_val(i+1));
+		}
 		for(long r=0;r<reqs;r++) {
 			std::string p;
 			unsigned k=rnd(10);
@@ -600,24 +631,23 @@ static void mode_rand(long configs,long reqs,vt::rng &rnd)
 		// every key of every node, from every node, in every form
 		for(size_t t=0;t<c.size();t++) for(size_t ki=0;ki<c[t].keys.size();ki++) {
 			KeyE const &ke=c[t].keys[ki];
-			// named path root -> t
-			std::vector<int> chain; bool named=true;
-			for(int x=t+1;x!=0;x=c[x-1].parent) { chain.insert(chain.begin(),x); if(c[x-1].parent && c[x-1].mname.empty()) named=false; }
-			if(!named) continue;
+			// path in the MAPPER hierarchy: top -> t
+			std::vector<int> chain;
+			for(int x=t+1;x!=0;x=c[x-1].mparent) chain.insert(chain.begin(),x);
 			// parameters from the languages of the groups of the handler's pattern
 			Pat pat; std::string hm="GET";
 			for(size_t q=0;q<c[t].opts.size();q++) if(!c[t].opts[q].mount && c[t].opts[q].id==ke.hid) { pat=c[t].opts[q].pat; if(c[t].opts[q].meth.kind) hm=c[t].opts[q].meth.set[0]; }
 			for(int rep=0;rep<2;rep++) {
 				std::vector<std::string> params,full,kwn; if(ke.hid) sample_pat(pat,rnd,&params);
 				full=params;
-				if(ke.kw) {      // the helper group: default value "en" or a keyword parameter (first actual parameter)
+				if(ke.kw) {      // the helper group: default value of the mapper top or a keyword parameter (first actual parameter)
 					std::string v=params[ke.kw-1]; params.erase(params.begin()+ke.kw-1);
-					if(rep==0) full[ke.kw-1]="en"; else { kwn.push_back("lang"); params.insert(params.begin(),v); }
+					if(rep==0) full[ke.kw-1]=helper_val(chain[0]); else { kwn.push_back("lang"); params.insert(params.begin(),v); }
 				}
 				for(size_t a=0;a<c.size();a++) {
-					std::vector<int> ac; bool an=true;
-					for(int x=a+1;x!=0;x=c[x-1].parent) { ac.insert(ac.begin(),x); if(c[x-1].parent && c[x-1].mname.empty()) an=false; }
-					if(!an || ac[0]!=chain[0]) continue;
+					std::vector<int> ac;
+					for(int x=a+1;x!=0;x=c[x-1].mparent) ac.insert(ac.begin(),x);
+					if(ac[0]!=chain[0]) continue;      // keys are resolved inside the caller's mapper hierarchy
 					// common prefix of the two chains
 					size_t cp=0; while(cp<ac.size() && cp<chain.size() && ac[cp]==chain[cp]) cp++;
 					std::vector<std::string> rel;
